@@ -68,7 +68,7 @@ def toPython (E : Env) (key : Bytes) (stored : Tree) : Option (Option Str) :=
       if m.isEmpty then none else                         -- `if not method`
       match Kvs.lookup "ciphertext" d with
       | some (.str c) =>
-        match B64.decode c with
+        match B64.decodeStrict c with                      -- `b64decode(text, validate=True)`
         | none => none
         | some ct =>
           match decrypt E key (String.ofList m) ct with
